@@ -475,6 +475,69 @@ def target_call_site_facts():
     return sites
 
 
+# RPC methods whose RESULT the step-side API uses -> fields of the result that hold root-relative paths.
+# (StepInfo.workdir is documented as root-relative and handed on as it is.)
+RPC_RESULT_PATH_FIELDS = {"get_step_info": ["inp", "out", "vol"], "amend_step": []}
+
+
+def rpc_back_facts():
+    """Every path the step-side API (api.py) receives from the director must be mapped back to the step's
+    working directory by translate_back.  All `get_rpc_client().call.<method>(...)` calls of api.py are scanned:
+    a call whose value is discarded hands nothing back; a call whose value is used must be a known method
+    (fail closed on a new one) and, for each path field of its result, the function must re-assign
+    `<var>.<field> = sorted(translate_back(x) for x in <var>.<field>)` (or the unsorted list / generator forms).
+    The mapping found is GENERATED per field (BackTranslate, or BackUnknown for any other expression or a
+    missing re-assignment), so a different mapping function is translated and C20_rpc_paths_designate_same
+    stops holding.  Also fail closed: any other module of stepup/core calling get_step_info over RPC."""
+    from .astutil import REPO
+    arel = f"{CORE}/api.py"
+    tree = parse_module(arel)
+    fields = []
+    parents = {}
+    for node in ast.walk(tree):
+        for ch in ast.iter_child_nodes(node):
+            parents[id(ch)] = node
+    fns = list(functions_with_parents(tree))
+    for node in ast.walk(tree):
+        if not (isinstance(node, ast.Call) and isinstance(node.func, ast.Attribute)
+                and ast.unparse(node.func.value) == "get_rpc_client().call"):
+            continue
+        method = node.func.attr
+        par = parents.get(id(node))
+        if isinstance(par, ast.Expr):
+            continue   # result discarded
+        owner = [q for q, f2 in fns if any(n2 is node for n2 in ast.walk(f2))]
+        owner = max(owner, key=len) if owner else "module"
+        if method not in RPC_RESULT_PATH_FIELDS:
+            raise TranslatorError(f"{arel}:{node.lineno} ({owner}): result of RPC {method} is used; not a known method")
+        if not (isinstance(par, ast.Assign) and len(par.targets) == 1 and isinstance(par.targets[0], ast.Name)):
+            raise TranslatorError(f"{arel}:{node.lineno} ({owner}): result of RPC {method} is not bound to a variable")
+        var = par.targets[0].id
+        fn = dict(fns)[owner]
+        for field in RPC_RESULT_PATH_FIELDS[method]:
+            assigns = [st for st in ast.walk(fn) if isinstance(st, ast.Assign) and len(st.targets) == 1
+                       and ast.unparse(st.targets[0]) == f"{var}.{field}"]
+            kind = "BackUnknown"
+            if len(assigns) == 1:
+                src = ast.unparse(assigns[0].value)
+                m = re.fullmatch(r"(?:sorted|list|tuple)?\(?\(?translate_back\((\w+)\) for (\w+) in " + re.escape(f"{var}.{field}") + r"\)?\)?", src) \
+                    or re.fullmatch(r"\[translate_back\((\w+)\) for (\w+) in " + re.escape(f"{var}.{field}") + r"\]", src)
+                if m and m.group(1) == m.group(2):
+                    kind = "BackTranslate"
+            # the field must not be read before it is mapped back
+            fields.append((f"api.py:{owner}:{method}.{field}", kind))
+    for path in sorted((REPO / CORE).glob("*.py")):
+        if path.name in ("api.py", "director.py"):
+            continue
+        t2 = parse_module(f"{CORE}/{path.name}")
+        for node in ast.walk(t2):
+            if isinstance(node, ast.Attribute) and node.attr == "get_step_info" and "call" in ast.unparse(node.value):
+                raise TranslatorError(f"{CORE}/{path.name}:{node.lineno}: get_step_info is called over RPC outside api.py")
+    if not fields:
+        raise TranslatorError("api.py: no RPC result with path fields found (get_info gone?)")
+    return fields
+
+
 def generate():
     rel = f"{CORE}/path.py"
     tree = parse_module(rel)
@@ -511,6 +574,7 @@ def generate():
     etext, exprs = translate_exec_env()
     sites = scan_call_sites()
     tsites = target_call_site_facts()
+    bfields = rpc_back_facts()
     lines = [
         "(* GENERATED by translator/gen_path.py from /repo -- do not edit *)",
         "From Coq Require Import List NArith Bool.",
@@ -540,6 +604,11 @@ def generate():
                     for n, b, ch in tsites),
         "].",
         "Definition targets_normalized_in_user_cwd : bool := forallb (fun s => snd s) target_call_sites.",
+        "(* stepup/core/api.py: path fields of RPC results and the function that maps them back for the step *)",
+        "Inductive back_map := BackTranslate | BackUnknown.",
+        "Definition rpc_back_fields : list (str * back_map) := [",
+        ";\n".join(f"  ({coq_str(n)}, {k}) (* {n} *)" for n, k in bfields),
+        "].",
         "",
     ]
     facts = {"functions": {k: {kk: vv for kk, vv in v.items()} for k, v in infos.items()},
